@@ -19,10 +19,11 @@ def run(prog, tier, extra=None):
     res = Result("C05", "other")
     R1 = res.rule("C05.gate", "the longest-chain decision and the golden-ticket density verdict gate what follows", floor=4)
     R2 = res.rule("C05.strictly-longer", "is_new_chain_the_longest_chain accepts only a strictly longer chain with at least the burn fee", floor=2)
-    R4 = res.rule("C05.density-anchor", "the golden-ticket density is evaluated at the tip of the candidate chain", floor=1)
+    R4 = res.rule("C05.density-anchor", "the golden-ticket density is evaluated for every block of the candidate chain (each closes its own window), from that block's own parent hash and ticket flag", floor=1)
     R5 = res.rule("C05.density-window", "the density helper looks at the candidate and exactly DENOMINATOR - 1 ancestors", floor=1)
     R6 = res.rule("C05.density-verdict", "no density verdict `true` is handed up without the ancestor walk having run (walker and every wrapper between it and the gate)", floor=2)
     R7 = res.rule("C05.first-block-shortcut", "the 'ring is empty, so the new chain wins' shortcut of fork choice can only ever apply to the first block: BlockRing.empty is true only in the constructor", floor=2)
+    R8 = res.rule("C05.height-follows-parent", "Block::validate accepts a block whose parent is known only if its id is the parent's id plus one", floor=1)
     R3 = res.rule("C05.density-constants", "the density rule is computed from MIN_GOLDEN_TICKETS_NUMERATOR/DENOMINATOR", floor=2)
 
     # R1a
@@ -114,6 +115,25 @@ def run(prog, tier, extra=None):
             return ok_field and idx0
         a_hash = next((a for a in args if has_field(a, "block::Block", "previous_block_hash")), None)
         a_flag = next((a for a in args if has_field(a, "block::Block", "has_golden_ticket")), None)
+        # every block of new_chain: the call sits in a loop driven by an un-thinned iterator over new_chain
+        h4 = bv.innermost_loop_containing([bb])
+        over_all = False
+        if h4 is not None and a_hash is not None and a_flag is not None:
+            for lb in sorted(bv.natural_loop(h4)):
+                lt = bv.term(lb)
+                if lt["k"] == "call" and call_name(lt) == "std::iter::Iterator::next" and lt["args"]:
+                    it = chv.origin(lt["args"][0])
+                    names = [y for y in walk(it) if (y[0] == "param" and (y[2] or "") == "new_chain") or (y[0] == "field" and y[3] == "new_chain")]
+                    thin = [y for y in walk(it) if y[0] in ("call", "via") and y[1].rsplit("::", 1)[-1] in ("skip", "take", "step_by", "filter", "skip_while", "take_while", "nth", "last", "filter_map")]
+                    over_all = over_all or (bool(names) and not thin)
+        if over_all:
+            res.sample({"rule": R4, "site": bv.loc(bb), "loop": bv.loc(h4), "verdict": "evaluated for every block of new_chain"})
+            continue
+        if a_hash is not None and a_flag is not None and from_tip(a_hash, "previous_block_hash") and from_tip(a_flag, "has_golden_ticket"):
+            res.add(Finding(R4, "C05.density-anchor|tip-only", "Blockchain::validate evaluates the golden-ticket density for new_chain[0] only: a side chain adopted in one step is never "
+                            "checked at its earlier blocks, so a stretch of ticket-less blocks is accepted when it arrives as a fork although every node that saw the same blocks "
+                            "one by one refused them - two honest nodes end on different chains", bv.loc(bb)))
+            continue
         if a_hash is None or a_flag is None or not from_tip(a_hash, "previous_block_hash") or not from_tip(a_flag, "has_golden_ticket"):
             res.add(Finding(R4, "C05.density-anchor", "Blockchain::validate does not evaluate the golden-ticket density at the candidate tip (new_chain[0]): %s"
                             % [show(a)[:70] for a in args[1:3]], bv.loc(bb)))
@@ -417,6 +437,33 @@ def run(prog, tier, extra=None):
                     res.add(Finding(R7, "C05.first-block-shortcut|%s" % b.path.replace("::{closure#0}", ""), "%s %s BlockRing.empty = %s outside the constructor: while the flag is set, "
                                     "is_new_chain_the_longest_chain accepts the next block as the longest chain without comparing length or burn fee"
                                     % (b.path.replace(CORE, "").replace("::{closure#0}", ""), where, "true" if val else "a computed value"), b.loc(bb)))
+
+    # R8: "strictly longer", "the tip height never decreases" and the whole window arithmetic read block ids as heights. The id is a
+    # field of the (signed) block, chosen by its creator: unless Block::validate ties it to the parent's id, a child of block 5 that
+    # calls itself block 8 is adopted, the reported height jumps, and a longer honest fork of height 7 is then refused.
+    from ._blockvalidate import BlockValidate as _BV8
+    from ..expr import has_field as _hf8
+    bv8 = _BV8(prog)
+    vb8, vch8 = bv8.body, bv8.ch
+    idcmp = gate.compare_edges(vb8, vch8, lambda a, b_: bv8.is_self_field(a, "id") and _hf8(b_, "block::Block", "id") and bv8.is_prev(b_))
+    no_prev8 = set()
+    for bb, blk in enumerate(vb8.blocks):
+        t = blk["t"]
+        if t["k"] == "switch":
+            e = vch8.origin(t["discr"])
+            if e[0] == "discr" and bv8.is_prev(e[1]) and _hf8(e[1], "block::Block", "previous_block_hash"):
+                no_prev8 |= gate.variant_edges(vb8, bb, 0)
+    res.instance(R8)
+    if not idcmp["sites"]:
+        res.add(Finding(R8, "C05.height-follows-parent|no-test", "Block::validate never compares the block's id with its parent's: a block can claim any height; fork choice, the "
+                        "reported tip height and every window computed from ids then follow the claimed number", vb8.loc(0)))
+    else:
+        path8, states8 = bv8.must_pass(idcmp["eq"], extra_exempt=no_prev8)
+        if path8:
+            res.add(Finding(R8, "C05.height-follows-parent|bypass", "Block::validate can accept a block whose parent is known without establishing id == parent id + 1",
+                            vb8.loc(idcmp["sites"][0]), {"path": bv8.describe(path8)}))
+        else:
+            res.sample({"rule": R8, "comparison": [vb8.loc(x) for x in idcmp["sites"]], "no_parent_exits": len(no_prev8), "states": states8, "verdict": "must-pass holds"})
 
     # fork choice finds the shared ancestor by walking back to the first block flagged in_longest_chain: the flags must follow
     # every wind/unwind step (C03.lockstep, cross-listed), or a branch that once lost the tip can never win it back
